@@ -35,12 +35,18 @@ func c07fGlob(pattern string) ([]string, error) {
 	if pattern == "/var/log/*/app.log" {
 		return []string{"/var/log/web1/app.log", "/var/log/web2/app.log"}, nil
 	}
+	if pattern == "/srv/*/app.log" {
+		// the first match is a directory the user may not read (sorted before the others)
+		return []string{"/srv/audit/app.log", "/srv/web1/app.log", "/srv/web2/app.log"}, nil
+	}
 	if pattern == "/var/log/web1/*.log" {
 		return []string{"/var/log/web1/app.log", "/var/log/web1/err.log"}, nil
 	}
 	return nil, nil
 }
-func c07fPerm(u *user.User, filePath, permissionType string) bool { return true }
+func c07fPerm(u *user.User, filePath, permissionType string) bool {
+	return filePath != "/srv/audit/app.log"
+}
 func c07fRead(r *readCommand, ctx context.Context, ltx lcontext.LContext, path, globID string, re regex.Regex) {
 	c07fIDs[path] = globID
 	if c07fReads != nil {
@@ -60,6 +66,7 @@ var c07fGlobs = []struct {
 	{"/var/log/web1/*.log", map[string]string{"/var/log/web1/app.log": "app.log", "/var/log/web1/err.log": "err.log"}},
 	{"/var/log/web1//*.log", map[string]string{"/var/log/web1/app.log": "app.log", "/var/log/web1/err.log": "err.log"}},
 	{"/var/log/web1/./*.log/", map[string]string{"/var/log/web1/app.log": "app.log", "/var/log/web1/err.log": "err.log"}},
+	{"/srv/*/app.log", map[string]string{"/srv/web1/app.log": "web1", "/srv/web2/app.log": "web2"}},
 }
 
 // VerifC07fGlobSpelling: a read command whose glob is spelled in any of the
